@@ -114,3 +114,17 @@ Definition statics_case (t : ty) (obs : list Z) : list Z :=
                  | _, _ => false
                  end in
   if model_ok && spec_ok then [] else [94; b2z model_ok; b2z spec_ok] ++ m ++ s.
+
+(* C02 case: the implementation decoded [data] (its own encoding of v); obs as in
+   model_decode_case, reenc = bytes of re-encoding the decoded message *)
+Definition roundtrip_case (e : endian) (t : ty) (v : value) (data : bytes) (obs : list Z) (obs_v : value)
+           (reenc : bytes) : list Z :=
+  model_decode_case e t data obs obs_v ++
+  (if legal t && wt t v && greedy_tail_aligned t v && beq data (wire e t v)
+   then spec_roundtrip_case e t v obs obs_v reenc else []).
+
+(* C06 fixpoint oracle: the bytes are always a fixpoint; the value too, unless the decoded
+   message has a greedy tail that does not end aligned (the exception documented in C02) *)
+Definition fixpoint_case (t : ty) (obs_v : value) (same_value same_bytes consumed_all : bool) : list Z :=
+  if same_bytes && consumed_all && (same_value || negb (greedy_tail_aligned t obs_v)) then []
+  else [92; b2z same_value; b2z same_bytes; b2z consumed_all].
